@@ -55,6 +55,197 @@ def function_body(text, name):
     return text[m.start():i]
 
 
+UNDEFINED = {"LIBXMP_CORE_PLAYER", "LIBXMP_CORE_DISABLE_IT", "LIBXMP_NO_PROWIZARD", "LIBXMP_NO_DEPACKERS"}
+
+
+def cond_strip(text):
+    """Resolve the conditionals whose outcome is fixed for the full build (`#if 0`, `#if 1`, `#ifdef X` /
+    `#ifndef X` / `#if defined(X)` / `#if !defined(X)` with X in UNDEFINED); lines under other conditionals are
+    kept (both branches).  Directive lines themselves are dropped."""
+    out = []
+    stack = []          # entries: [known(bool), active_now(bool), parent_active(bool)]
+    active = True
+    for line in text.split("\n"):
+        m = re.match(r"\s*#\s*(ifdef|ifndef|if|elif|else|endif)\b(.*)", line)
+        if not m:
+            if active:
+                out.append(line)
+            continue
+        kw, rest = m.group(1), m.group(2).strip()
+        if kw in ("ifdef", "ifndef", "if"):
+            val = None
+            if kw == "ifdef" and rest.split()[0] in UNDEFINED:
+                val = False
+            elif kw == "ifndef" and rest.split()[0] in UNDEFINED:
+                val = True
+            elif kw == "if":
+                mm = re.fullmatch(r"(!?)\s*defined\s*\(?\s*(\w+)\s*\)?", rest)
+                if rest in ("0", "1"):
+                    val = rest == "1"
+                elif mm and mm.group(2) in UNDEFINED:
+                    val = bool(mm.group(1))
+            stack.append([val, active])
+            if val is not None:
+                active = active and val
+        elif kw == "elif":
+            if stack and stack[-1][0] is not None:
+                # a known `#if` followed by `#elif`: the elif branch is unknown unless the first was taken
+                taken = stack[-1][0]
+                active = stack[-1][1] and not taken
+                stack[-1][0] = True if taken else None
+        elif kw == "else":
+            if stack and stack[-1][0] is not None:
+                active = stack[-1][1] and not stack[-1][0]
+        elif kw == "endif":
+            if stack:
+                _, active = stack.pop()
+        # directive line dropped
+    return "\n".join(out)
+
+
+def split_args(s):
+    """split a C argument list at top-level commas"""
+    args, depth, cur, q = [], 0, "", None
+    for ch in s:
+        if q:
+            cur += ch
+            if ch == q and not cur.endswith("\\" + q):
+                q = None
+            continue
+        if ch in "\"'":
+            q = ch
+            cur += ch
+        elif ch in "([{":
+            depth += 1
+            cur += ch
+        elif ch in ")]}":
+            depth -= 1
+            cur += ch
+        elif ch == "," and depth == 0:
+            args.append(cur.strip())
+            cur = ""
+        else:
+            cur += ch
+    if cur.strip():
+        args.append(cur.strip())
+    return args
+
+
+def call_args(text, k):
+    """text[k] is the '(' of a call: returns (argument text, index after the matching ')')"""
+    depth, i, q = 0, k, None
+    while i < len(text):
+        ch = text[i]
+        if q:
+            if ch == q and text[i - 1] != "\\":
+                q = None
+        elif ch in "\"'":
+            q = ch
+        elif ch == "(":
+            depth += 1
+        elif ch == ")":
+            depth -= 1
+            if depth == 0:
+                return text[k + 1:i], i + 1
+        i += 1
+    raise vlib.InfraError("unbalanced call in test function")
+
+
+CALL_RE = re.compile(r"\b(hio_\w+|libxmp_read_title|libxmp_copy_adjust|pw_test_format)\s*\(")
+
+
+def norm(e):
+    return re.sub(r"\s+", " ", e).strip()
+
+
+def test_calls(body):
+    """the stream / title calls of a test function in source order, normalised: the handle, the title pointer
+    and destination buffers are dropped from the argument lists"""
+    k = body.find("{")
+    calls = []
+    for m in CALL_RE.finditer(body, k):
+        fn = m.group(1)
+        args, _ = call_args(body, m.end() - 1)
+        a = [norm(x) for x in split_args(args)]
+        if fn == "hio_read":
+            a = a[1:3]                      # (buf, size, num, f) -> size, num
+        elif fn == "libxmp_read_title":
+            a = a[2:]                       # (f, t, len) -> len
+        elif fn == "libxmp_copy_adjust":
+            a = ["t" if a and a[0] == "t" else "other"]
+        elif fn == "pw_test_format":
+            a = []
+        else:
+            a = [x for x in a if x not in ("f", "h")]
+        calls.append("%s(%s)" % (fn, ", ".join(a)))
+    return calls
+
+
+def title_writes(body):
+    """how the function stores a title through its pointer `t`, by class, in source order"""
+    k = body.find("{")
+    b = body[k:]
+    found = []
+    for m in re.finditer(r"libxmp_read_title\s*\(", b):
+        args, _ = call_args(b, m.end() - 1)
+        a = [norm(x) for x in split_args(args)]
+        ln = a[2] if len(a) > 2 else "?"
+        found.append((m.start(), "read_title:" + (ln if re.fullmatch(r"\d+", ln) else "expr")))
+    for m in re.finditer(r"libxmp_copy_adjust\s*\(\s*t\s*,", b):
+        found.append((m.start(), "copy_adjust"))
+    for m in re.finditer(r"pw_test_format\s*\(\s*\w+\s*,\s*t\s*,", b):
+        found.append((m.start(), "pw_test_format"))
+    for m in re.finditer(r"(?:\*\s*t|t\s*\[\s*0\s*\])\s*=\s*(?:0|'\\0')\s*;", b):
+        found.append((m.start(), "empty"))
+    # anything else that stores through t
+    for m in re.finditer(r"\bt\s*\[[^\]]*\]\s*=[^=]|\b(?:strncpy|strcpy|memcpy|memset|snprintf|sprintf|strlcpy|strncat|strcat)\s*\(\s*t\s*[,)]|"
+                         r"\bhio_read\s*\(\s*t\s*,", b):
+        if re.match(r"t\s*\[\s*0\s*\]\s*=\s*(?:0|'\\0')\s*;", b[m.start():]):
+            continue
+        found.append((m.start(), "other"))
+    return [c for _, c in sorted(found)]
+
+
+NAME_DST = r"(?:mod->name|m->mod\.name)"
+
+
+def load_title_stores(text):
+    """every store of a title into mod->name in a loader's source file: (widths, all_literal).  A width is the number of
+    bytes the call may copy (strncpy/memcpy/libxmp_copy_adjust: third argument; hio_read: size * num;
+    libxmp_read_title: its length; snprintf with "%.Ns": N); anything that is not a decimal literal makes the
+    list non-literal (macros, sizeof, variables)."""
+    widths, literal = [], True
+    for m in re.finditer(r"\b(strncpy|memcpy|libxmp_copy_adjust|hio_read|libxmp_read_title|snprintf)\s*\(", text):
+        args, _ = call_args(text, m.end() - 1)
+        a = [norm(x) for x in split_args(args)]
+        fn = m.group(1)
+        w = None
+        if fn in ("strncpy", "memcpy", "libxmp_copy_adjust") and len(a) == 3 and re.fullmatch(NAME_DST, a[0]):
+            w = a[2]
+        elif fn == "hio_read" and len(a) == 4 and re.fullmatch(NAME_DST, a[0]):
+            w = str(int(a[1]) * int(a[2])) if a[1].isdigit() and a[2].isdigit() else "expr"
+        elif fn == "libxmp_read_title" and len(a) == 3 and re.fullmatch(NAME_DST, a[1]):
+            w = a[2]
+        elif fn == "snprintf" and len(a) >= 3 and re.fullmatch(NAME_DST, a[0]):
+            mm = re.fullmatch(r'"%\.(\d+)s"', a[2])
+            w = mm.group(1) if mm else "expr"
+        if w is None:
+            continue
+        if re.fullmatch(r"\d+", w):
+            widths.append(int(w))
+        else:
+            literal = False
+    return widths, literal
+
+
+def type_key(t):
+    """same key as tools/checks/c11.py derives from a format name"""
+    w = re.sub(r"[^a-z0-9 ]", "", t.lower()).split()
+    if not w:
+        return "none"
+    return w[0] + (w[-1] if len(w) > 1 and w[-1].isdigit() else "")
+
+
 def lean_str_list(xs):
     return "[" + ", ".join('"%s"' % x.replace("\\", "\\\\").replace('"', '\\"') for x in xs) + "]"
 
@@ -93,6 +284,66 @@ def generate():
     missing = [s for s in syms if s not in names]
     if missing:
         raise vlib.InfraError("loader initialisers not found for %s" % missing)
+    # --- every loader's test function: file, stream/title calls, title writes (full build)
+    facts = {}
+    for p in sorted(glob.glob(os.path.join(src, "loaders", "*.c"))):
+        t = cond_strip(strip_c_comments(open(p, errors="replace").read()))
+        for mm in re.finditer(r"const\s+struct\s+format_loader\s+(libxmp_loader_\w+)\s*=\s*\{([^}]*)\}", t):
+            parts = split_args(mm.group(2))
+            if len(parts) < 3:
+                raise vlib.InfraError("%s: unexpected format_loader initialiser" % mm.group(1))
+            tf = parts[1]
+            try:
+                fb = function_body(t, tf)
+            except vlib.InfraError:
+                raise vlib.InfraError("%s: test function %s not defined in %s" % (mm.group(1), tf, os.path.basename(p)))
+            lw, lit = load_title_stores(t)
+            dels = []
+            for d in re.findall(r"\b(libxmp_loader_\w+)\s*\.\s*loader\s*\(", t):
+                if d not in dels:
+                    dels.append(d)
+            facts[mm.group(1)] = dict(file=os.path.basename(p), fn=tf, calls=test_calls(fb), writes=title_writes(fb),
+                                      load_widths=lw, load_literal=lit, delegates=dels)
+    missing = [s for s in syms if s not in facts]
+    if missing:
+        raise vlib.InfraError("test functions not found for %s" % missing)
+    # --- constants of the four core test functions
+    def c_string(lit):
+        return bytes(lit, "latin-1").decode("unicode_escape")
+    mt = cond_strip(strip_c_comments(open(os.path.join(src, "loaders", "mod_load.c")).read()))
+    m = re.search(r"struct\s+mod_magic\s+mod_magic\s*\[\s*\]\s*=\s*\{(.*?)\}\s*;", mt, re.S)
+    if not m:
+        raise vlib.InfraError("mod_magic[] not found in mod_load.c")
+    mod_magic = [(c_string(a), int(b)) for a, b in re.findall(r"\{\s*\"((?:[^\"\\]|\\.)*)\"\s*,\s*(\d+)\s*,", m.group(1))]
+    if not mod_magic or any(len(a) != 4 or not a.isascii() for a, _ in mod_magic):
+        raise vlib.InfraError("mod_magic[]: unexpected entries %r" % mod_magic)
+    magic4 = {}
+    for fn, mac4 in (("s3m_load.c", "MAGIC_SCRM"), ("it_load.c", "MAGIC_IMPM")):
+        tt = strip_c_comments(open(os.path.join(src, "loaders", fn)).read())
+        m = re.search(r"#\s*define\s+%s\s+MAGIC4\s*\(\s*'(.)'\s*,\s*'(.)'\s*,\s*'(.)'\s*,\s*'(.)'\s*\)" % mac4, tt)
+        if not m:
+            raise vlib.InfraError("%s not found in %s" % (mac4, fn))
+        magic4[mac4] = int.from_bytes("".join(m.groups()).encode("latin-1"), "big")
+    xt = cond_strip(strip_c_comments(open(os.path.join(src, "loaders", "xm_load.c")).read()))
+    m = re.search(r"memcmp\s*\(\s*buf\s*,\s*\"((?:[^\"\\]|\\.)*)\"\s*,\s*(\d+)\s*\)", function_body(xt, facts["libxmp_loader_xm"]["fn"]))
+    if not m:
+        raise vlib.InfraError("xm_test: memcmp(buf, \"...\", N) not found")
+    xm_id, xm_idlen = c_string(m.group(1)), int(m.group(2))
+    # --- known title findings (known_findings.json, status "known", signature title:<key>) -> loader symbols
+    deviants = []
+    try:
+        import json
+        kf = json.load(open(os.path.join(vlib.VERIF, "known_findings.json")))["findings"]
+    except (OSError, ValueError, KeyError):
+        kf = []
+    for k in kf:
+        sig = k.get("signature", "")
+        if k.get("property") == "C11" and k.get("status") == "known" and sig.startswith("title:") and "prowizard" not in sig:
+            # the finding's text names the test function ("masi_test (Epic MegaGames MASI) only looks ...")
+            fns = set(re.findall(r"\b(\w+_test)\b", k.get("what", "")))
+            for s in syms:
+                if facts[s]["fn"] in fns and re.fullmatch(sig[len("title:"):], type_key(names[s])) and s not in deviants:
+                    deviants.append(s)
     # --- ProWizard
     pc = strip_c_comments(open(os.path.join(src, "loaders", "prowizard", "prowiz.c")).read())
     m = re.search(r"pw_formats\s*\[[^\]]*\]\s*=\s*\{(.*?)\};", pc, re.S)
@@ -186,10 +437,63 @@ def generate():
     L.append("/-- every `xmp_test_module*` wrapper empties `info->name`/`info->type` before its first `return` -/")
     L.append("def wrappersResetInfo : Bool := %s" % ("true" if wrappers_reset else "false"))
     L.append("")
+    L.append("/-! ## the core test functions (xm_test, mod_test, it_test, s3m_test) -/")
+    L.append("")
+    L.append("/-- `mod_magic[]` (loaders/mod_load.c): magic, flag (\"detected\") -/")
+    L.append("def modMagic : List (String × Nat) := [%s]" % ", ".join('(%s, %d)' % (lean_str_list([a])[1:-1], b) for a, b in mod_magic))
+    L.append("def MAGIC_SCRM : Nat := 0x%08x" % magic4["MAGIC_SCRM"])
+    L.append("def MAGIC_IMPM : Nat := 0x%08x" % magic4["MAGIC_IMPM"])
+    L.append("/-- `memcmp(buf, xmIdText, xmIdLen)` in xm_test -/")
+    L.append("def xmIdText : String := %s" % lean_str_list([xm_id])[1:-1])
+    L.append("def xmIdLen : Nat := %d" % xm_idlen)
+    L.append("")
+    L.append("/-! ## every entry of `format_loaders[]`: where its test function lives and what it does to the stream and")
+    L.append("to the title pointer, syntactically (full build; calls in source order, handle / title pointer / destination")
+    L.append("buffers dropped from the argument lists) -/")
+    L.append("")
+    L.append("structure TestFacts where")
+    L.append("  sym : String")
+    L.append("  name : String")
+    L.append("  file : String")
+    L.append("  fn : String")
+    L.append("  /-- `hio_*`, `libxmp_read_title`, `libxmp_copy_adjust`, `pw_test_format` calls -/")
+    L.append("  calls : List String")
+    L.append("  /-- stores through the title pointer by class: `read_title:<n>` (literal length), `read_title:expr`,")
+    L.append("  `copy_adjust`, `pw_test_format`, `empty` (`*t = 0`), `other` -/")
+    L.append("  writes : List String")
+    L.append("  /-- the non-zero literal lengths passed to `libxmp_read_title` by the test function, in source order, and")
+    L.append("  whether every title store of the test function is a `libxmp_read_title` with a literal length -/")
+    L.append("  testWidths : List Nat")
+    L.append("  testLiteral : Bool")
+    L.append("  /-- widths of the stores into `mod->name` found in the loader's source file (strncpy / memcpy /")
+    L.append("  libxmp_copy_adjust / hio_read / libxmp_read_title / snprintf \"%.Ns\") that are decimal literals, and whether")
+    L.append("  every such store has a literal width -/")
+    L.append("  loadWidths : List Nat")
+    L.append("  loadLiteral : Bool")
+    L.append("  /-- loaders whose `loader` function this one calls (wrappers: UMX, MUSE) -/")
+    L.append("  delegates : List String")
+    L.append("")
+    L.append("def testFacts : List TestFacts := [")
+    rows = []
+    for s in syms:
+        f = facts[s]
+        rows.append("  { sym := %s, name := %s, file := %s, fn := %s,\n    calls := %s,\n    writes := %s,\n    testWidths := %s, testLiteral := %s, loadWidths := %s, loadLiteral := %s, delegates := %s }" % (
+            lean_str_list([s])[1:-1], lean_str_list([names[s]])[1:-1], lean_str_list([f["file"]])[1:-1],
+            lean_str_list([f["fn"]])[1:-1], lean_str_list(f["calls"]), lean_str_list(f["writes"]),
+            "[" + ", ".join(w.split(":")[1] for w in f["writes"] if re.fullmatch(r"read_title:[1-9]\d*", w)) + "]",
+            "true" if f["writes"] and all(re.fullmatch(r"read_title:\d+", w) for w in f["writes"]) else "false",
+            "[" + ", ".join(str(w) for w in f["load_widths"]) + "]", "true" if f["load_literal"] else "false",
+            lean_str_list(f["delegates"])))
+    L.append(",\n".join(rows) + "]")
+    L.append("")
+    L.append("/-- loaders named by a known title finding (known_findings.json: property C11, status known, `title:<key>`) -/")
+    L.append("def titleDeviants : List String := " + lean_str_list(deviants))
+    L.append("")
     L.append("end Xmp.TestLoad.Gen")
     changed = vlib.write_if_changed(OUT, "\n".join(L) + "\n")
     return dict(changed=changed, n_loaders=len(syms), n_pw=len(pwsyms), prepare_returns=rets,
-                pw_title_init=inits, buf_init=buf_init, wrappers_reset=wrappers_reset, pw_untitled=[pwnames[s] for s in pwsyms if s in pwuntitled], syms=syms, names=[names[s] for s in syms], pwnames=[pwnames[s] for s in pwsyms])
+                pw_title_init=inits, buf_init=buf_init, wrappers_reset=wrappers_reset, pw_untitled=[pwnames[s] for s in pwsyms if s in pwuntitled], syms=syms, names=[names[s] for s in syms], pwnames=[pwnames[s] for s in pwsyms],
+                mod_magic=mod_magic, deviants=deviants)
 
 
 if __name__ == "__main__":
